@@ -393,6 +393,10 @@ def run(ctx):  # noqa: C901, PLR0912, PLR0915
 
     from . import common
     common.version_group_setters_total(ctx, 'C04.R1')
+    from .c18 import exponent_never_written
+    exponent_never_written(ctx, 'C04.R3')   # what a commit can contain is writable as a schema-valid report
+    from .c10 import mk_context_state_checks_handles
+    mk_context_state_checks_handles(ctx, 'C04.R1')   # a handle clash is rejected by the call, not by the index in mid-commit
     common.copies_are_deep(ctx, 'C04.R4')   # the copies kept for periodic reports / handed to observers are deep
     common.observers_all_notified(ctx, 'C04.R1')   # every commit reaches the report sender
     # ------------------------------------------------------------------ R5
